@@ -288,6 +288,22 @@ class G:
         self.add_fn("is_odd", ["n"], [INT], BOOL,
                     {"k": "if", "c": {"k": "binop", "op": "<=", "l": V("n"), "r": I(0)}, "t": {"k": "bool", "b": False},
                      "e": call("is_even", {"k": "binop", "op": "-", "l": V("n"), "r": I(1)})})
+        # functions that RETURN closures after a let that may abort: the binding must run when the maker is called,
+        # whether or not the closure is ever applied
+        self.add_fn("guard_pos", ["n"], [INT], INT,
+                    {"k": "if", "c": {"k": "binop", "op": ">", "l": V("n"), "r": I(0)}, "t": V("n"), "e": {"k": "fail"}})
+        self.add_fn("make_adder", ["n"], [INT], TFn([INT], INT),
+                    {"k": "let", "x": "x", "ty": INT, "e": call("guard_pos", V("n")),
+                     "body": {"k": "fn", "ps": ["b"], "pts": [INT], "ret": INT, "body": {"k": "binop", "op": "+", "l": V("x"), "r": V("b")}}})
+        self.add_fn("make_scaler", ["n", "k"], [INT, INT], TFn([INT], INT),
+                    {"k": "let", "x": "x", "ty": INT, "e": {"k": "binop", "op": "/", "l": V("k"), "r": V("n")},
+                     "body": {"k": "fn", "ps": ["b"], "pts": [INT], "ret": INT, "body": {"k": "binop", "op": "*", "l": V("x"), "r": V("b")}}})
+        self.add_fn("apply2", ["f", "a", "b"], [TFn([INT, INT], INT), INT, INT], INT,
+                    {"k": "apply", "f": V("f"), "args": [V("a"), V("b")]})
+        self.add_fn("ssum", ["k", "n"], [INT, INT], INT,
+                    {"k": "if", "c": {"k": "binop", "op": "<=", "l": V("n"), "r": I(0)}, "t": I(0),
+                     "e": {"k": "binop", "op": "+", "l": {"k": "binop", "op": "+", "l": V("k"), "r": call("ssum", V("k"), {"k": "binop", "op": "-", "l": V("n"), "r": I(1)})},
+                           "r": call("apply2", {"k": "fnref", "f": "ssum"}, V("k"), I(0))}})
         self.add_fn("unbox", ["b"], [TAdt("Box", INT)], INT,
                     {"k": "letp", "p": {"p": "con", "ty": "Box", "i": 0, "args": [{"p": "var", "x": "inner"}]}, "e": V("b"), "body": V("inner")})
         self.add_fn("or_else", ["o", "d"], [TOption(INT), INT], INT,
@@ -457,6 +473,8 @@ class G:
             if c < 0.5 and teq(ty["e"], INT):
                 x = self.fresh("a")
                 fn = {"k": "fn", "ps": [x], "pts": [INT], "ret": INT, "body": self.gent(INT, env + [(x, INT)], fuel // 3)}
+                if r.random() < 0.4:
+                    fn = self.gen(TFn([INT], INT), env, fuel // 3)
                 return {"k": "call", "f": "map_int", "args": [self.gen(ty, env, fuel // 2), fn], "pipe": r.random() < 0.4}
             return self.lit(ty) if r.random() < 0.4 else self.gen(ty, env, fuel // 2)
         if t == "Tuple":
@@ -487,6 +505,10 @@ class G:
             ty2 = r.choice([t2 for t2 in ser_pool() if t2["t"] not in ("Data",)])
             return {"k": "todata", "ty": ty2, "e": self.gen(ty2, env, fuel - 1)}
         if t == "fn":
+            makers = self.callable_fns(ty)
+            if makers and r.random() < 0.5:
+                f = r.choice(makers)
+                return {"k": "call", "f": f, "args": [self.gen(pt, env, fuel // 3) for pt in self.fns[f]["pts"]]}
             ps = [self.fresh("a") for _ in ty["args"]]
             return {"k": "fn", "ps": ps, "pts": ty["args"], "ret": ty["ret"],
                     "body": self.gent(ty["ret"], env + list(zip(ps, ty["args"])), fuel // 2)}
